@@ -143,12 +143,21 @@ fn run_type(ct: ContentType) -> Option<String> {
     if ct == ContentType::None { if !got.is_empty() { return Some(format!("{desc} expected=no content-type field actual={got:?}")); } }
     else if got.len() != 1 || *got[0] != want { return Some(format!("{desc} expected=content-type: {want} actual={got:?}")); }
     if want.contains('\r') || want.contains('\n') { return Some(format!("{desc} expected=type text without CR / LF actual={want:?}")); }
+    // with a type set, an own content-type field would be a second one: refused before any byte; without, it is the only one
+    let resp2 = Response::new(200).with_type(ct.clone()).with_header("Content-Type", AsciiString::try_from("text/x-own").unwrap()).with_body(ResponseBody::StaticStr("x"));
+    let mut w2 = RecWriter::new();
+    let r2 = std::panic::catch_unwind(std::panic::AssertUnwindSafe(|| block_on(write_http_response(&mut w2, &resp2, false))));
+    let r2 = match r2 { Ok(r) => r, Err(_) => return Some(format!("{desc} own=1 expected=no-panic actual=panic")) };
+    if ct == ContentType::None { if r2.is_err() { return Some(format!("{desc} own=1 expected=Ok (no type set: the own field is the only one) actual={r2:?}")); } }
+    else if r2.is_ok() || !w2.out.is_empty() { return Some(format!("{desc} own=1 expected=refused before any byte (a second content-type field) actual={r2:?} after {} bytes", w2.out.len())); }
     None
 }
 fn type_cases() -> Vec<ContentType> {
     vec![ContentType::Css, ContentType::Csv, ContentType::EventStream, ContentType::FormUrlEncoded, ContentType::Gif, ContentType::Html, ContentType::JavaScript, ContentType::Jpeg,
          ContentType::Json, ContentType::Markdown, ContentType::MultipartForm, ContentType::None, ContentType::OctetStream, ContentType::Pdf, ContentType::PlainText, ContentType::Png,
-         ContentType::Svg, ContentType::Str("application/x-custom"), ContentType::String("text/x; q=1".to_string())]
+         ContentType::Svg, ContentType::Str("application/x-custom"), ContentType::String("text/x; q=1".to_string()),
+         // a type that is set but whose text is empty is still a type: the field is there (and guards an own content-type field)
+         ContentType::Str(""), ContentType::String(String::new())]
 }
 fn stream_cases() -> Vec<(Vec<usize>, usize, u16)> {
     let mut v = Vec::new();
